@@ -1,6 +1,6 @@
 #!/bin/bash
 # convenience: every claimed check in the thorough tier, one line each (exit code and time)
-cd /verif
+cd "$(dirname "$0")"
 for p in C01 C02 C03 C04 C05 C06 C07 C09 C10 C14 C15 C16 C19; do
   s=$(date +%s); ./check $p --tier thorough > /tmp/thorough_$p.log 2>&1; rc=$?
   echo "$p exit=$rc $(( $(date +%s)-s ))s :: $(tail -n1 /tmp/thorough_$p.log | cut -c1-220)"
